@@ -1135,7 +1135,8 @@ def MPD(phi: np.ndarray) -> float:
     nz = w > 0
     num = phi.real[nz] * V[1, 1] - phi.imag[nz] * V[0, 1]
     den = np.sqrt(V[0, 1] ** 2 + V[1, 1] ** 2) * w[nz]
-    MPD = np.sum(w[nz] * np.arccos(np.abs(num / den))) / np.sum(w)
+    # |num / den| <= 1 by Cauchy-Schwarz; rounding can push it just above 1 for (nearly) collinear shapes
+    MPD = np.sum(w[nz] * np.arccos(np.minimum(np.abs(num / den), 1.0))) / np.sum(w)
     return MPD
 
 
